@@ -1,12 +1,13 @@
 // @mode lex line
-//! mode `lex`: `lex <escaped-text>` → the output of the real `GoldLexer::lex` (C05).
+//! mode `lex`: `lex =<escaped-text>` → the output of the real `GoldLexer::lex` (C05).
 //! One word per token `t,<Kind>,<escaped value>,<raw_pos>,<start line>,<start col>,<end line>,<end col>`,
 //! then one word per error `e,<start line>,<start col>,<end line>,<end col>`; `-` if there is neither.
 use crate::lexer::GoldLexer;
 use crate::wire::{escape, unescape};
 
 pub fn run(words: &[&str]) -> String {
-    let text = if words.len() > 1 { unescape(words[1]) } else { String::new() };
+    // the text word is `=` followed by the escaped text (so that the empty text is still a word)
+    let text = if words.len() > 1 && words[1].starts_with('=') { unescape(&words[1][1..]) } else { return "bad-case".to_string() };
     let mut lexer = GoldLexer::new();
     let (tokens, errors) = lexer.lex(&text);
     let mut out: Vec<String> = Vec::with_capacity(tokens.len() + errors.len());
